@@ -106,6 +106,7 @@ CHECKS = {
         level_note="Only loopback addresses exist in the sandbox, so the deny side of AllowFrom is exercised with lists that do not contain loopback. 'Well-formed file' = every non-blank, non-comment line is a valid authorized_keys line.",
         tests=[
             dict(name="TestC09KeyCallback", quick=dict(checks=5000, timeout=600), thorough=dict(checks=60000, shards=8, timeout=3000)),
+            dict(name="TestC09PasswordCallback", quick=dict(checks=8000, timeout=600), thorough=dict(checks=80000, shards=4, timeout=3000)),
             dict(name="TestC09Handshake", quick=dict(checks=300, timeout=600), thorough=dict(checks=3000, shards=8, timeout=3000)),
         ]),
     "C14": dict(
